@@ -33,6 +33,7 @@ import (
 	"github.com/tink-crypto/tink-go/v2/prf"
 	"github.com/tink-crypto/tink-go/v2/prf/hkdfprf"
 	"github.com/tink-crypto/tink-go/v2/prf/hmacprf"
+	tinkpb "github.com/tink-crypto/tink-go/v2/proto/tink_go_proto"
 	"github.com/tink-crypto/tink-go/v2/signature"
 	"github.com/tink-crypto/tink-go/v2/signature/ed25519"
 	"github.com/tink-crypto/tink-go/v2/streamingaead"
@@ -228,6 +229,112 @@ func projectKey(k key.Key) (dkey, error) {
 	return o, nil
 }
 
+// describeParams is the abstract record of derived-key parameters found inside a deriver key.
+func describeParams(p key.Parameters) (dparams, error) {
+	switch t := p.(type) {
+	case *aesgcm.Parameters:
+		if t.IVSizeInBytes() != 12 || t.TagSizeInBytes() != 16 {
+			return dparams{}, fmt.Errorf("AES-GCM parameters outside the modelled 12/16")
+		}
+		return dparams{Type: "AESGCM", Variant: t.Variant().String(), KeySize: t.KeySizeInBytes()}, nil
+	case *xchacha20poly1305.Parameters:
+		return dparams{Type: "XCHACHA", Variant: t.Variant().String()}, nil
+	case *aessiv.Parameters:
+		return dparams{Type: "AESSIV", Variant: t.Variant().String(), KeySize: t.KeySizeInBytes()}, nil
+	case *hmac.Parameters:
+		return dparams{Type: "HMAC", Variant: t.Variant().String(), KeySize: t.KeySizeInBytes(), Hash: t.HashType().String(), TagSize: t.CryptographicTagSizeInBytes()}, nil
+	case *hkdfprf.Parameters:
+		return dparams{Type: "HKDFPRF", Variant: "NO_PREFIX", KeySize: t.KeySizeInBytes(), Hash: t.HashType().String(), Salt: vt.Hex(t.Salt())}, nil
+	case *hmacprf.Parameters:
+		return dparams{Type: "HMACPRF", Variant: "NO_PREFIX", KeySize: t.KeySizeInBytes(), Hash: t.HashType().String()}, nil
+	case *ed25519.Parameters:
+		return dparams{Type: "ED25519", Variant: t.Variant().String()}, nil
+	case *aesgcmhkdf.Parameters:
+		if t.SegmentSizeInBytes() != 4096 {
+			return dparams{}, fmt.Errorf("segment size outside the modelled 4096")
+		}
+		return dparams{Type: "AESGCMHKDF", Variant: "NO_PREFIX", KeySize: t.KeySizeInBytes(), Hash: t.HKDFHashType().String(), TagSize: t.DerivedKeySizeInBytes()}, nil
+	}
+	return dparams{}, fmt.Errorf("unexpected derived parameters %T", p)
+}
+
+// describeHandle reads a deriver handle made elsewhere (key templates) back into the abstract keyset.
+func describeHandle(h *keyset.Handle) ([]dentry, error) {
+	var ks []dentry
+	for i := 0; i < h.Len(); i++ {
+		e, err := h.Entry(i)
+		if err != nil {
+			return nil, err
+		}
+		dk, ok := e.Key().(*prfbasedkeyderivation.Key)
+		if !ok {
+			return nil, fmt.Errorf("not a deriver key: %T", e.Key())
+		}
+		pk, ok := dk.PRFKey().(*hkdfprf.Key)
+		if !ok {
+			return nil, fmt.Errorf("not an HKDF PRF key: %T", dk.PRFKey())
+		}
+		pp := pk.Parameters().(*hkdfprf.Parameters)
+		d, err := describeParams(dk.Parameters().(*prfbasedkeyderivation.Parameters).DerivedKeyParameters())
+		if err != nil {
+			return nil, err
+		}
+		ks = append(ks, dentry{vt.ID4(e.KeyID()), status(e.KeyStatus()), e.IsPrimary(), pp.HashType().String(), vt.Hex(pp.Salt()),
+			vt.Hex(pk.KeyBytes().Data(tok)), d})
+	}
+	return ks, nil
+}
+
+// templates: deriver keysets generated by the library itself from key templates (random PRF key, random id),
+// including a keyset grown with keyset.Manager.Add / SetPrimary / Disable.
+func (x *run) templates(full bool) {
+	prfT := []*tinkpb.KeyTemplate{prf.HKDFSHA256PRFKeyTemplate()}
+	derived := []*tinkpb.KeyTemplate{aead.AES128GCMKeyTemplate(), aead.AES256GCMNoPrefixKeyTemplate(), aead.XChaCha20Poly1305KeyTemplate(),
+		daead.AESSIVKeyTemplate(), mac.HMACSHA256Tag128KeyTemplate(), signature.ED25519KeyTemplate(), signature.ED25519KeyWithoutPrefixTemplate(),
+		prf.HKDFSHA256PRFKeyTemplate(), prf.HMACSHA256PRFKeyTemplate(), prf.HMACSHA512PRFKeyTemplate(),
+		streamingaead.AES128GCMHKDF4KBKeyTemplate(), streamingaead.AES256GCMHKDF4KBKeyTemplate()}
+	reps := 2
+	if full {
+		reps = 40
+	}
+	for rep := 0; rep < reps; rep++ {
+		for _, dt := range derived {
+			t, err := keyderivation.CreatePRFBasedKeyTemplate(prfT[0], dt)
+			if err != nil {
+				vt.Fatal("CreatePRFBasedKeyTemplate: %v", err)
+			}
+			km := keyset.NewManager()
+			id1, err := km.Add(t)
+			if err != nil {
+				vt.Fatal("Manager.Add: %v", err)
+			}
+			if err := km.SetPrimary(id1); err != nil {
+				vt.Fatal("SetPrimary: %v", err)
+			}
+			if rep%2 == 1 { // grow: a second key becomes primary, a third is disabled
+				id2, _ := km.Add(t)
+				id3, _ := km.Add(t)
+				if km.SetPrimary(id2) != nil || km.Disable(id3) != nil {
+					vt.Fatal("manager operations failed")
+				}
+			}
+			h, err := km.Handle()
+			if err != nil {
+				vt.Fatal("Handle: %v", err)
+			}
+			ks, err := describeHandle(h)
+			if err != nil {
+				vt.Fatal("describe: %v", err)
+			}
+			salt := vt.Bytes(x.r, []int{0, 8, 32}[x.r.Intn(3)])
+			dh, o := x.deriveWith("template", h, ks, salt, false)
+			if dh != nil {
+				x.use(ks, salt, dh, o)
+			}
+		}
+	}
+}
+
 func status(s keyset.KeyStatus) string {
 	switch s {
 	case keyset.Enabled:
@@ -288,6 +395,11 @@ func (x *run) derive(ks []dentry, salt []byte, saltNil bool) (*keyset.Handle, []
 	if err != nil {
 		vt.Fatal("cannot build deriver keyset: %v", err)
 	}
+	return x.deriveWith("factory", h, ks, salt, saltNil)
+}
+
+// deriveWith runs DeriveKeyset(salt) twice on deriver handle h, which ks describes.
+func (x *run) deriveWith(route string, h *keyset.Handle, ks []dentry, salt []byte, saltNil bool) (*keyset.Handle, []dkey) {
 	var d keyderivation.KeysetDeriver
 	var h1, h2 *keyset.Handle
 	var e0, e1, e2 error
@@ -303,7 +415,7 @@ func (x *run) derive(ks []dentry, salt []byte, saltNil bool) (*keyset.Handle, []
 		h1, e1 = d.DeriveKeyset(s)
 		h2, e2 = d.DeriveKeyset(append([]byte{}, s...))
 	})
-	e := vt.Ev{"ev": "derive", "route": "factory", "ks": ks, "salt": vt.Hex(salt), "saltnil": saltNil, "panic": p,
+	e := vt.Ev{"ev": "derive", "route": route, "ks": ks, "salt": vt.Hex(salt), "saltnil": saltNil, "panic": p,
 		"ok": false, "out": []dkey{}, "out2": []dkey{}, "tinkEqual": false}
 	if p {
 		e["panicVal"] = fmt.Sprint(pv)
@@ -660,10 +772,13 @@ func runAll(w *vt.Writer, full bool) {
 		}
 	}
 
+	// 1b. deriver keysets the library generates itself from key templates
+	x.templates(full)
+
 	// 2. multi-key deriver keysets of one primitive family: statuses, primary position, ids
 	count := 200
 	if full {
-		count = 3000
+		count = 12000
 	}
 	byFam := map[string][]dparams{}
 	for _, d := range ds {
@@ -787,7 +902,7 @@ func runAll(w *vt.Writer, full bool) {
 	}
 	nStreams := 40
 	if full {
-		nStreams = 400
+		nStreams = 2000
 	}
 	for i := 0; i < nStreams; i++ {
 		h, s, k := x.prfOf(i)
